@@ -25,7 +25,7 @@ func TestC20(t *testing.T) {
 		},
 		NCases: func(tier string) int {
 			if tier == "thorough" {
-				return 60000
+				return 400000
 			}
 			return 3000
 		},
